@@ -43,6 +43,11 @@ def generate(rng, tier):
             r = rng.random()
             on = list(range(ncubes)) if r < 0.5 else ([] if r < 0.6 else sorted(rng.sample(range(ncubes), rng.randint(1, ncubes))))
             gcs.append({"name": f"g{k}", "on": on})
+        if ncubes >= 2 and rng.random() < 0.25:
+            # several names (2-4) present on the same cubes only - adjacent on the first cube, all missing from the
+            # same later cube - plus one name present everywhere
+            on = sorted({0} | set(rng.sample(range(ncubes), rng.randint(1, ncubes - 1))))
+            gcs = [{"name": f"g{k}", "on": on} for k in range(rng.choice([2, 3, 4]))] + [{"name": "gall", "on": list(range(ncubes))}]
         yield {"base": base, "ca": ca, "lens": lens, "fam": rng.choice(FAMILIES), "wseed": rng.randrange(10**6), "ecs": ecs,
                "gcs": gcs, "lead": rng.random() < 0.3}
 
